@@ -212,15 +212,17 @@ NumIndentsC(line, ind) ==
   IN  IF maxnum = 0 THEN 0 ELSE IF cnt >= maxnum THEN maxnum - 1 ELSE cnt
 \* str.splitlines(): a text that ends with a newline (last line empty) loses that last line
 SplitLines(lines) == IF Len(lines) >= 1 /\ lines[Len(lines)] = <<>> THEN SubSeq(lines, 1, Len(lines) - 1) ELSE lines
+\* the empty string is "no line at all" for the harness: a result of one empty line is reported as no line
+TextRes(ls) == VL(IF ls = <<<<>>>> THEN <<>> ELSE [i \in 1..Len(ls) |-> VS(ls[i])])
 C_Indent(lines0, ind) ==
-  LET lines == SplitLines(lines0) IN R(Ok(VL([i \in 1..Len(lines) |-> VS(ind \o lines[i])])), "join")
+  LET lines == SplitLines(lines0) IN R(Ok(TextRes([i \in 1..Len(lines) |-> ind \o lines[i]])), "join")
 C_Dedent(lines0, ind, maxlv) ==
   LET lines == SplitLines(lines0) IN
-  IF Len(ind) = 0 THEN R(Ok(VL([i \in 1..Len(lines0) |-> VS(lines0[i])])), "empty-indent")
+  IF Len(ind) = 0 THEN R(Ok(TextRes(lines0)), "empty-indent")
   ELSE IF Len(lines) = 0 THEN R(Err("ValueError"), "no-lines")                \* min() of an empty sequence
   ELSE LET lv0 == MinOf([i \in 1..Len(lines) |-> NumIndentsC(lines[i], ind)])
            lv  == IF maxlv = NONE THEN lv0 ELSE Min2(lv0, maxlv)
-       IN  R(Ok(VL([i \in 1..Len(lines) |-> VS(SubSeq(lines[i], lv * Len(ind) + 1, Len(lines[i])))])),
+       IN  R(Ok(TextRes([i \in 1..Len(lines) |-> SubSeq(lines[i], lv * Len(ind) + 1, Len(lines[i]))])),
              IF maxlv # NONE /\ maxlv < lv0 THEN "capped" ELSE "common")
 
 (* ----------------------------- apply_on_boundary ------------------------ *)
